@@ -33,3 +33,21 @@ func init() {
 func VerifPoolStats() (interimNew, visitCtxNew int64) {
 	return atomic.LoadInt64(&verifInterimNew), atomic.LoadInt64(&verifVisitCtxNew)
 }
+
+// VerifSynCacheLen returns the number of thesauri held by the synonym cache of
+// an in-memory (*SegmentBase) or opened (*Segment) segment; -1 for anything else.
+func VerifSynCacheLen(s interface{}) int {
+	var sc *synonymIndexCache
+	switch x := s.(type) {
+	case *SegmentBase:
+		sc = x.synIndexCache
+	case *Segment:
+		sc = x.synIndexCache
+	}
+	if sc == nil {
+		return -1
+	}
+	sc.m.RLock()
+	defer sc.m.RUnlock()
+	return len(sc.cache)
+}
